@@ -10,6 +10,7 @@ import (
 	"io"
 	"strconv"
 	"testing"
+	"time"
 
 	"github.com/la5nta/wl2k-go/lzhuf"
 	ref "verif/ref/lzhuf"
@@ -57,6 +58,18 @@ type C06Plan struct {
 	Parts  []Part      `json:"parts,omitempty"`
 	Reads  []ReadSched `json:"reads,omitempty"`
 	Fault  *C06Fault   `json:"fault,omitempty"`
+	// Conc: further inputs that other goroutines of the same process compress
+	// (each with its own Writer, CRC mode and partition) while the first one
+	// is compressed; Yield: pauses at the statement boundaries of the
+	// instrumented Writer/Reader code (core.Sim.EnableYields).
+	Conc  []C06Conc `json:"conc,omitempty"`
+	Yield []int     `json:"yield,omitempty"`
+}
+
+type C06Conc struct {
+	Input []Seg `json:"input"`
+	CRC   bool  `json:"crc"`
+	Part  Part  `json:"part"`
 }
 
 // chunks cuts in according to the partition.
@@ -556,6 +569,8 @@ func execC06(t *testing.T, prop string, raw json.RawMessage, trace bool) core.Ou
 			}
 			smp.InputLen = l
 			sim.ProbeN("exhaustive-short-strings", smp.Strings)
+		case len(pl.Conc) > 0:
+			concurrentWriters(sim, prop, &pl, &out)
 		case pl.Fault != nil:
 			in := expand(pl.Input)
 			smp.InputLen = len(in)
@@ -583,4 +598,89 @@ func execC06(t *testing.T, prop string, raw json.RawMessage, trace bool) core.Ou
 		}
 	}
 	return out
+}
+
+// concurrentWriters: independent Writers (and Readers) used by different
+// goroutines at the same time. Each goroutine compresses its own input with
+// its own Writer and reads it back with its own Reader; the plan's pauses let
+// them overlap in the middle of Write, Close and Read. Every round trip is
+// judged like a lone one.
+func concurrentWriters(sim *core.Sim, prop string, pl *C06Plan, out *core.Outcome) {
+	type job struct {
+		in   []byte
+		crc  bool
+		part Part
+	}
+	jobs := []job{{expand(pl.Input), pl.CRC, Part{}}}
+	if len(pl.Parts) > 0 {
+		jobs[0].part = pl.Parts[0]
+	}
+	for i, c := range pl.Conc {
+		if i < 3 {
+			jobs = append(jobs, job{expand(c.Input), c.CRC, c.Part})
+		}
+	}
+	sim.Probe("concurrent-writers-in-one-process")
+	sim.EnableYields(pl.Yield)
+	type res struct {
+		stream []byte
+		werr   error
+		cerr   error
+		ok     bool
+		back   readResult
+	}
+	results := make([]res, len(jobs))
+	gos := make([]*core.GoResult, len(jobs))
+	for i := range jobs {
+		i := i
+		gos[i] = core.Go(func() {
+			sim.Pause()
+			rep := func(oracle, detail, format string, args ...any) {
+				sim.Violate(prop, oracle, detail+"/concurrent-writers", format, args...)
+			}
+			lg := newExecLog()
+			snk := &sink{}
+			r := &results[i]
+			r.werr, r.cerr, r.ok = compress(rep, jobs[i].in, jobs[i].crc, jobs[i].part, snk, lg)
+			r.stream = snk.buf
+			if r.ok && r.werr == nil && r.cerr == nil {
+				r.back = readAll(rep, r.stream, jobs[i].crc, ReadSched{}, -1, 100, len(jobs[i].in)+64, lg)
+			}
+		})
+	}
+	done := core.WaitAll(24*time.Hour, gos...)
+	if n := sim.DisableYields(); n > 0 {
+		sim.ProbeN("pauses-inside-library-code", n)
+	}
+	if !done {
+		sim.Violate(prop, "liveness", "concurrent-writers-did-not-finish", "a goroutine compressing its own input with its own Writer did not finish")
+		return
+	}
+	for i, g := range gos {
+		out.Evals++
+		r := results[i]
+		if g.Panic != nil {
+			sim.Violate(prop, "panic", core.PanicClass(g.Panic)+"@"+core.RepoFrame(g.Stack)+"/concurrent-writers", "goroutine %d: %v\n%s", i, g.Panic, g.Stack)
+			continue
+		}
+		if !r.ok {
+			continue
+		}
+		if r.werr != nil || r.cerr != nil {
+			sim.Violate(prop, "write", "error-without-fault/concurrent-writers", "writer %d of %d working at the same time: Write/Close returned %v / %v on a healthy underlying writer", i, len(jobs), r.werr, r.cerr)
+			continue
+		}
+		rout, v := ref.Decode(r.stream, jobs[i].crc)
+		switch {
+		case !v.OK:
+			sim.Violate(prop, "reference-decode", "stream-rejected/concurrent-writers", "writer %d of %d working at the same time: the independent decoder rejects its stream for a %d-byte input: %+v", i, len(jobs), len(jobs[i].in), v)
+		case !bytes.Equal(rout, jobs[i].in):
+			sim.Violate(prop, "reference-decode", "output-differs/concurrent-writers", "writer %d of %d working at the same time: the independent decoder decodes its stream to something else (first difference at %d of %d)", i, len(jobs), firstDiff(rout, jobs[i].in), len(jobs[i].in))
+		default:
+			out.NonTrivial = true
+		}
+		if r.back.panicked || r.back.newErr != nil || r.back.stuck || r.back.readErr != io.EOF || r.back.closeErr != nil || !bytes.Equal(r.back.out, jobs[i].in) {
+			sim.Violate(prop, "round-trip", "output-differs/concurrent-writers", "writer %d of %d working at the same time: the library's own Reader gives %d bytes (read error %v, close error %v) for a %d-byte input", i, len(jobs), len(r.back.out), r.back.readErr, r.back.closeErr, len(jobs[i].in))
+		}
+	}
 }
